@@ -196,17 +196,30 @@ def history(name):
             s.run(files())
         elif name == "tags":
             s.run(tagged(), tags=[("project", "acme"), ("stage", "draft")])
+        elif name == "three-fans":
+            s.run(fan(2))
+            s.run(fan(5))
+            s.run(fan(3))
+        elif name == "mixed":
+            s.run(tagged(), tags=[("project", "acme")])
+            s.run(files())
+            s.run(shallow_main(3))
+            s.run(shallow_main(3))
+            s.run(fan(4))
     return s
 
 
 try:
-    for name in ("fan", "shallow-cached", "files", "tags"):
+    DEEP = bool(os.environ.get("C23_DEEP"))
+    for name in ("fan", "shallow-cached", "files", "tags") + (("three-fans", "mixed") if DEEP else ()):
         if w:
             break
         s = history(name)
         src = s.backend
         ex = executions(src.session)
         root_sets = [[e] for e in ex] + ([ex] if len(ex) > 1 else [])
+        if DEEP and len(ex) > 2:
+            root_sets = [list(c) for r in range(1, len(ex) + 1) for c in itertools.combinations(ex, r)][:40]      # thorough tier: every subset of the executions as roots
         for roots in root_sets:
             n += 1
             dest = new_scheduler().backend
@@ -287,5 +300,5 @@ except Exception as e:
     w = dict(observed=f"raised {type(e).__name__}: {e}", trace=traceback.format_exc()[-800:])
 
 finish(w is not None, witness=w, evaluations=n, samples=samples,
-       bound="4 histories (two fan-out executions; an execution served from the cache in one step; file results; tags then an update and two deletions) x root sets {each execution, all} x "
+       bound=("thorough: 6 histories incl. three executions with every subset as roots and a repository mixing tags, files, cached and fan-out executions; " if os.environ.get("C23_DEEP") else "") + "4 histories (two fan-out executions; an execution served from the cache in one step; file results; tags then an update and two deletions) x root sets {each execution, all} x "
              "{fresh destination, repeated transfer, incremental transfer after tag edits, one-shot transfer of the edited source}, records sent through JSON lines; one call graph recorded through the backend API with explicit subtree task sets; one cache-safety scenario (a task beneath a shallowly checked task is redefined after the transfer)")
